@@ -93,9 +93,36 @@ def pos_pairs(task):
     return [g]
 
 
+def thumb_cond_branches(task):
+    """the Thumb instructions that carry their own condition: B<c> T1 and B<c>.W T3 outside IT blocks, every
+    (cond, NZCV) - failing ones must be a no-op, passing ones must branch (both are exactly specified)"""
+    rnd = random.Random(task['seed'])
+    g = S.mk_group(task)
+    k = 0
+    for cond in range(14):
+        for f in range(16):
+            for imm8 in (0x00, 0x7F, 0x80, 0xFE, rnd.getrandbits(8)):
+                st, pc = S.prep(g, rnd, task, True, 0, k)
+                k += 1
+                set_flags(st, f)
+                C.put_instr(st, pc, 0xD000 | (cond << 8) | imm8, True)
+                g.add(st, {'n': 'Step'}, meta={'word': 0xD000 | (cond << 8) | imm8, 'cond': cond, 'flags': f})
+            for _ in range(2):
+                w = (0xF000 | (rnd.getrandbits(1) << 10) | (cond << 6) | rnd.getrandbits(6)) << 16 | \
+                    0x8000 | (rnd.getrandbits(1) << 13) | (rnd.getrandbits(1) << 11) | rnd.getrandbits(11)
+                st, pc = S.prep(g, rnd, task, True, 0, k)
+                k += 1
+                set_flags(st, f)
+                C.put_instr(st, pc, w, True)
+                g.add(st, {'n': 'Step'}, meta={'word': w, 'cond': cond, 'flags': f})
+    return [g]
+
+
 def clause_filter(c, v, e):
     if c in ('nop-on-condfail', 'cond-pass-differs'):
         return True
+    if v['path'] in ('exact:B_T1', 'exact:B_T3'):
+        return c not in ('range', 'confine')                  # a conditional branch whose condition passes must branch
     return v['path'].startswith('exact:condfail') and c not in ('hosterror', 'range', 'confine')
 
 
@@ -127,6 +154,9 @@ def run(ctx):
         ws = list(range(i * 8192 + (ctx.seed % step), (i + 1) * 8192, step))
         tasks.append((neg_thumb, dict(name='neg-t16-%d' % i, seed=ctx.seed + 50 + i, words=ws, pairs=FAILING,
                                       modes='all')))
+    for i in range(2):
+        tasks.append((thumb_cond_branches, dict(name='tbcond-%d' % i, seed=ctx.seed + 400 + i, modes='all',
+                                                cfg={'arch_version': 7} if i else {})))
     for i in range(4):
         ws = [w for th, w in S.random_words(random.Random(ctx.seed + 70 + i), 4 * n) if th][:n]
         tasks.append((neg_thumb, dict(name='neg-t32-%d' % i, seed=ctx.seed + 80 + i, words=ws, pairs=FAILING,
